@@ -628,7 +628,7 @@ class SALEEmbedding(LossCase):
         return g_
 
 
-H_ENC = 2
+H_ENC = 3
 N_BINS = 3
 ZS = zoo.W
 
